@@ -218,13 +218,20 @@ type focusHandler struct {
 
 	// path is the path to the focused widet
 	path []Widget
+
+	// lastFrame is the surface the path is computed from
+	lastFrame Surface
 }
 
 func (f *focusHandler) handleEvent(app *App, ev vaxis.Event) error {
 	app.consumeEvent = false
 
+	// A handler can change the focus, which replaces f.path. The event
+	// follows the path it started on
+	path := f.path
+
 	// Capture phase
-	for _, w := range f.path {
+	for _, w := range path {
 		c, ok := w.(EventCapturer)
 		if !ok {
 			continue
@@ -253,8 +260,8 @@ func (f *focusHandler) handleEvent(app *App, ev vaxis.Event) error {
 
 	// Bubble phase. We don't bubble to the focused widget (which is the
 	// last one in the list). Hence, - 2
-	for i := len(f.path) - 2; i >= 0; i -= 1 {
-		w := f.path[i]
+	for i := len(path) - 2; i >= 0; i -= 1 {
+		w := path[i]
 		cmd, err := w.HandleEvent(ev, BubblePhase)
 		if err != nil {
 			return err
@@ -270,16 +277,22 @@ func (f *focusHandler) handleEvent(app *App, ev vaxis.Event) error {
 }
 
 func (f *focusHandler) updatePath(app *App, root Surface) {
-	// Clear the path
-	f.path = []Widget{}
-
-	ok := f.childHasFocus(root)
-	if !ok {
+	f.lastFrame = root
+	if !f.findPath() {
 		// Best effort refocus
 		_ = f.focusWidget(app, f.root)
 	}
+}
 
-	if f.root != root.Widget || len(f.path) == 0 {
+// findPath sets path to the widgets from the root to the focused widget in the
+// last frame. It returns false if the focused widget is not in the last frame
+func (f *focusHandler) findPath() bool {
+	// Clear the path
+	f.path = []Widget{}
+
+	ok := f.childHasFocus(f.lastFrame)
+
+	if f.root != f.lastFrame.Widget || len(f.path) == 0 {
 		// Make sure that we always add the original root widget as the
 		// last node. We will reverse the list, making this widget the
 		// first one with the opportunity to capture events
@@ -291,6 +304,7 @@ func (f *focusHandler) updatePath(app *App, root Surface) {
 	for i := 0; i < len(f.path)/2; i++ {
 		f.path[i], f.path[len(f.path)-1-i] = f.path[len(f.path)-1-i], f.path[i]
 	}
+	return ok
 }
 
 func (f *focusHandler) childHasFocus(s Surface) bool {
@@ -326,6 +340,9 @@ func (f *focusHandler) focusWidget(app *App, w Widget) error {
 	// focused widget must already be the one which got the last focus in
 	// event, or focus out and focus in events would no longer pair up
 	f.focused = w
+	// Events go to the ancestors of the focused widget from now on, not
+	// only after the next frame
+	f.findPath()
 	inCmd, err := w.HandleEvent(vaxis.FocusIn{}, TargetPhase)
 	app.handleCommand(outCmd)
 	if err != nil {
